@@ -3,9 +3,12 @@
 //!   clh gen <stream> --tier quick|thorough --seed N     (case lines on stdout)
 //!   clh exec                                            (op lines on stdin -> result lines)
 mod bn;
+mod c19;
 mod exec;
 mod fixtures;
+mod pres;
 mod reg;
+mod tamper;
 mod rng;
 mod util;
 
@@ -30,7 +33,7 @@ fn backend() -> &'static str {
 fn gen(stream: &str, tier: &str, seed: u64) -> Result<(), String> {
     let mut rng = Rng::new(seed);
     let thorough = tier == "thorough";
-    let gens: Vec<fn(&str, bool, &mut Rng) -> Option<Result<(), String>>> = vec![reg::gen, bn::gen];
+    let gens: Vec<fn(&str, bool, &mut Rng) -> Option<Result<(), String>>> = vec![reg::gen, pres::gen, bn::gen, c19::gen];
     for g in gens {
         if let Some(r) = g(stream, thorough, &mut rng) {
             return r;
